@@ -193,18 +193,75 @@ def _call(args):
         # parglare prints its tables on conflicts; keep the check's stdout for verdict lines
         with contextlib.redirect_stdout(io.StringIO()):
             return fn(unit)
-    except Exception:
+    except Exception as e:
+        tb = traceback.extract_tb(e.__traceback__)
+        if tb and os.path.abspath(tb[-1].filename).startswith(os.path.abspath(REPO) + os.sep):
+            # the implementation itself raised where the harness expected it to work: that is a
+            # finding about the code, not a failure of the check's machinery
+            return {"evaluations": 1, "violations": [{
+                "kind": "unexpected-exception-from-implementation",
+                "case": {"unit": repr(unit)[:600]},
+                "observed": "%s: %s at %s:%d" % (type(e).__name__, str(e)[:120],
+                                                 os.path.relpath(tb[-1].filename, REPO), tb[-1].lineno),
+                "traceback": traceback.format_exc()[-1500:]}]}
         return {"harness_error": traceback.format_exc(), "unit": repr(unit)[:300]}
 
 
-def run_units(fn, units, jobs=None):
+def _child(fn, unit, path):
+    import pickle
+    r = _call((fn, unit))
+    with open(path, "wb") as f:
+        pickle.dump(r, f)
+
+
+def run_units(fn, units, jobs=None, unit_timeout=None):
+    """Runs every unit in its own forked process (at most `jobs` at a time) with a hard
+    per-unit timeout; a worker that dies or hangs yields a harness error for that unit
+    instead of blocking the check."""
+    import pickle
+    import tempfile
     units = list(units)
     jobs = jobs or NCPU
-    if jobs <= 1 or len(units) <= 1:
+    unit_timeout = unit_timeout or float(os.environ.get("VERIF_UNIT_TIMEOUT", "1500"))
+    if jobs <= 1 and len(units) <= 1:
         return [_call((fn, u)) for u in units]
     ctx = mp.get_context("fork")
-    with ctx.Pool(jobs) as pool:
-        return pool.map(_call, [(fn, u) for u in units], chunksize=1)
+    tmp = tempfile.mkdtemp(prefix="pgverif-")
+    results = [None] * len(units)
+    pending = list(range(len(units)))
+    running = {}
+    try:
+        while pending or running:
+            while pending and len(running) < jobs:
+                i = pending.pop(0)
+                path = os.path.join(tmp, "%d.pkl" % i)
+                pr = ctx.Process(target=_child, args=(fn, units[i], path))
+                pr.start()
+                running[i] = (pr, path, time.time())
+            time.sleep(0.02)
+            for i, (pr, path, t0) in list(running.items()):
+                if not pr.is_alive():
+                    pr.join()
+                    if os.path.exists(path):
+                        with open(path, "rb") as f:
+                            results[i] = pickle.load(f)
+                        os.unlink(path)
+                    else:
+                        results[i] = {"harness_error": "worker for unit %d died with exit code %s" % (i, pr.exitcode),
+                                      "unit": repr(units[i])[:300]}
+                    del running[i]
+                elif time.time() - t0 > unit_timeout:
+                    pr.kill()
+                    pr.join()
+                    results[i] = {"harness_error": "worker for unit %d exceeded %ds" % (i, unit_timeout),
+                                  "unit": repr(units[i])[:300], "timeout": True}
+                    del running[i]
+    finally:
+        for pr, _, _ in running.values():
+            pr.kill()
+        import shutil
+        shutil.rmtree(tmp, ignore_errors=True)
+    return results
 
 
 def chunks(lst, n):
